@@ -160,7 +160,7 @@ def run_param_case(ctx, rng, n):
     ctx.count('obs.param_cases')
     ctx.count('obs.placeholders_bound', nph)
     ctx.count('param.named' if named else 'param.positional')
-    case = {'statement': text, 'params': show(params if not named else dict(params)), 'literal_form': lit,
+    case = {'replay': ['params', n], 'statement': text, 'params': show(params if not named else dict(params)), 'literal_form': lit,
             'columns': mt.columns, 'rows': show_rows(mt.rows, 20)}
     if len(ctx.samples) < 3 and nph >= 2:
         ctx.sample({'statement': text, 'params': case['params'], 'literal_form': lit})
@@ -182,7 +182,8 @@ def run_param_case(ctx, rng, n):
 # ---------------------------------------------------------------------------
 # folding
 
-def run_fold_case(ctx, rng, depth):
+def run_fold_case(ctx, rng, n):
+    depth = ctx.pick(3, 5)
     g = gen.ExprGen(rng, cols_by_type={}, max_depth=depth, obj=False)
     t = rng.choice([T_INT, T_DEC, T_STR, T_DATE, T_BOOL])
     e = g.expr(t, rng.randint(2, depth))
@@ -216,7 +217,7 @@ def run_fold_case(ctx, rng, depth):
     text = ir.to_text(qa, _LIT)
     ctx.case(('fold', text), e.depth() >= 3)
     ctx.count('obs.fold_cases')
-    case = {'folded': text, 'column_fed': ir.to_text(qb, _LIT), 'row': show(row)}
+    case = {'replay': ['fold', n], 'folded': text, 'column_fed': ir.to_text(qb, _LIT), 'row': show(row)}
     if a[0] == 'exc' and b[0] == 'exc' and a[1] == b[1]:
         ctx.count('excluded.both_raise')
         return
@@ -353,7 +354,7 @@ def run_history(ctx, rng, n):
     hist = [{'mode': m, 'statement': t, 'params': show(p)} for m, t, p in steps]
     ctx.case(('hist', tuple((m, t, repr(p)) for m, t, p in steps)), len(steps) >= 3)
     ctx.count('obs.histories')
-    case = {'history': hist, 'ledger': led.text, 'rows': show_rows(mt.rows, 20)}
+    case = {'replay': ['hist', n], 'history': hist, 'ledger': led.text, 'rows': show_rows(mt.rows, 20)}
     if before != after:
         ctx.violation('c09.source_mutated', 'ledger entries digest changed during the history', case)
     if mt.rows != rows_before:
@@ -365,25 +366,24 @@ def run_history(ctx, rng, n):
 
 def run(ctx):
     engine.bq()
-    rng = ctx.rng('params')
     for n in range(ctx.pick(90, 2500)):
         if ctx.out_of_time():
             break
-        run_param_case(ctx, rng, n)
-    rng = ctx.rng('fold')
+        run_param_case(ctx, ctx.rng('params', n), n)
     for n in range(ctx.pick(500, 12000)):
         if ctx.out_of_time():
             break
-        run_fold_case(ctx, rng, ctx.pick(3, 5))
-    rng = ctx.rng('hist')
+        run_fold_case(ctx, ctx.rng('fold', n), n)
     for n in range(ctx.pick(14, 400)):
         if ctx.out_of_time():
             break
-        run_history(ctx, rng, n)
+        run_history(ctx, ctx.rng('hist', n), n)
 
 
 def replay(ctx, case):
-    print('replay: re-run with the same VERIF_SEED; case was:', case)
+    engine.bq()
+    part, n = case['replay']
+    {'params': run_param_case, 'fold': run_fold_case, 'hist': run_history}[part](ctx, ctx.rng(part, n), n)
 
 
 def finalize(merged):
